@@ -296,9 +296,64 @@ func attrsGo(as []GAttr) slog.Attrs {
 			}
 			continue
 		}
-		out = append(out, slog.NewAttr(a.Key, a.Val.Go()))
+		out = append(out, typedAttr(a.Key, a.Val))
 	}
 	return out
+}
+
+// typedAttr: every other attribute (by key length) is made with the typed constructor of its kind
+// (slog.Int8, slog.Uint16, slog.Float32, slog.Duration, ... / the generic slog.Numeric), the others with NewAttr / Any
+func typedAttr(key string, v GVal) slog.Attr {
+	if len(key)%2 == 0 {
+		switch v.Kind {
+		case "string":
+			return slog.String(key, v.S)
+		case "bool":
+			return slog.Bool(key, v.B)
+		case "int":
+			return slog.Int(key, int(v.I))
+		case "int8":
+			return slog.Int8(key, int8(v.I))
+		case "int16":
+			return slog.Int16(key, int16(v.I))
+		case "int32":
+			return slog.Int32(key, int32(v.I))
+		case "int64":
+			return slog.Int64(key, v.I)
+		case "uint":
+			return slog.Uint(key, uint(v.U))
+		case "uint8":
+			return slog.Uint8(key, uint8(v.U))
+		case "uint16":
+			return slog.Uint16(key, uint16(v.U))
+		case "uint32":
+			return slog.Uint32(key, uint32(v.U))
+		case "uint64":
+			return slog.Uint64(key, v.U)
+		case "float32":
+			return slog.Float32(key, float32(v.F))
+		case "float64":
+			return slog.Float64(key, v.F)
+		case "complex64":
+			return slog.Complex64(key, complex64(complex(v.C[0], v.C[1])))
+		case "complex128":
+			return slog.Complex128(key, complex(v.C[0], v.C[1]))
+		case "duration":
+			return slog.Duration(key, time.Duration(v.I))
+		case "time":
+			return slog.Time(key, fixedTime.Add(time.Duration(v.I)))
+		}
+		return slog.Any(key, v.Go())
+	}
+	switch v.Kind { // the generic constructor for some numeric kinds
+	case "int16":
+		return slog.Numeric(key, int16(v.I))
+	case "uint32":
+		return slog.Numeric(key, uint32(v.U))
+	case "float32":
+		return slog.Numeric(key, float32(v.F))
+	}
+	return slog.NewAttr(key, v.Go())
 }
 
 // ---- generator ----
